@@ -85,7 +85,7 @@ impl Skeleton {
         let raw_animation_container = root.find_object_by_type("hkaAnimationContainer");
         let animation_container = HavokAnimationContainer::new(raw_animation_container);
 
-        let havok_skeleton = &animation_container.skeletons[0];
+        let havok_skeleton = animation_container.skeletons.first()?;
 
         let mut skeleton = Skeleton { bones: vec![] };
 
